@@ -136,3 +136,8 @@ MUTANTS = [
 # SESSION7 additions to the claim (clauses added in DESIGN section 12)
 CLAIM['technique'] += '; static inventory restricted to the copy path'
 CLAIM['text'] += ' C08-h: no function below zck_copy_chunks writes an object with static storage (the bytes hashed are the bytes written).'
+
+
+# SESSION7b additions to the claim (round 8, DESIGN 12.6)
+CLAIM['technique'] += '; error discipline of the target writes (R1) on the copy path'
+CLAIM['text'] += ' C08-i: a failed or short target write cannot reach a success exit of the write wrapper or the copy loops.'
